@@ -984,6 +984,7 @@ func genSuiteAndInput(r *rng, wild bool) (string, string, cfgT) {
 
 func genC05(r *rng, n int, hostile bool) []string {
 	var out []string
+	out = append(out, editedSuiteOps(r)...)
 	// every registered suite with a boundary input
 	for _, name := range registered {
 		c, _ := cfgOfRegistered(name)
@@ -1124,6 +1125,7 @@ func bytesOf(b byte, n int) []byte {
 
 func genC14(r *rng, n int, hostile bool) []string {
 	var out []string
+	out = append(out, editedSuiteOps(r)...)
 	// systematic: each field alone at every length 0..140 for a few configurations
 	base := []cfgT{
 		{kind: "C", raw: "a", hash: 0, digits: 6, challenge: 1, q: true},
@@ -1166,9 +1168,51 @@ func genC14(r *rng, n int, hostile bool) []string {
 	return out
 }
 
+// editedSuiteOps: a suite obtained from a constructor (registered name / parsed string) and then edited through its
+// exported embedded configuration, one field at a time, keeping the name: each edit that makes the suite unusable must be
+// refused by generation and validation, each edit that keeps it usable must give the RFC value of the edited
+// configuration.  Whatever a constructor established (and may have remembered) about the old fields says nothing here.
+func editedSuiteOps(r *rng) []string {
+	var out []string
+	names := []string{"OCRA-1:HOTP-SHA1-6:QN08", "OCRA-1:HOTP-SHA256-8:C-QN08-PSHA1", "OCRA-1:HOTP-SHA512-8:QN08-T1M", "OCRA-1:HOTP-SHA1-7:C-QN10-S064-T30S"}
+	for _, name := range names {
+		base, ok := cfgOfRegistered(strings.ToUpper(name))
+		if !ok {
+			continue
+		}
+		base.raw = name
+		base.kind = "X"
+		edits := []func(c *cfgT){
+			func(c *cfgT) {},
+			func(c *cfgT) { c.digits = 8 },
+			func(c *cfgT) { c.digits = 3 }, func(c *cfgT) { c.digits = 0 }, func(c *cfgT) { c.digits = 11 }, func(c *cfgT) { c.digits = -1 },
+			func(c *cfgT) { c.hash = 3 }, func(c *cfgT) { c.hash = 7 }, func(c *cfgT) { c.hash = (c.hash + 1) % 3 },
+			func(c *cfgT) { c.p = true; c.pw = 0 }, func(c *cfgT) { c.p = true; c.pw = 2 },
+			func(c *cfgT) { c.t = true; c.ts = 0 }, func(c *cfgT) { c.t = true; c.ts = -1 }, func(c *cfgT) { c.t = true; c.ts = 60 },
+			func(c *cfgT) { c.q = true; c.challenge = 0 }, func(c *cfgT) { c.challenge = 3 },
+			func(c *cfgT) { c.s = !c.s }, func(c *cfgT) { c.c = !c.c },
+		}
+		key := genKey(r)
+		ks := hxs(spell(r, key))
+		for _, e := range edits {
+			c := base
+			e(&c)
+			in := admissibleInput(r, c)
+			out = append(out, fmt.Sprintf("gocra %s %s %s", ks, c.str(), in))
+			code := refOCRA(key, c, in)
+			if code == "" {
+				code = strings.Repeat("0", int(c.digits&15))
+			}
+			out = append(out, fmt.Sprintf("vocra %s %s %s %s", ks, hxs(code), c.str(), in))
+		}
+	}
+	return out
+}
+
 func genC06(r *rng, n int, hostile bool) []string {
 	var out []string
 	out = append(out, degenerateOps(r, "ocra")...)
+	out = append(out, editedSuiteOps(r)...)
 	for i := 0; i < n; i++ {
 		su, in, c := genSuiteAndInput(r, hostile || r.intn(4) == 0)
 		key := genKey(r)
